@@ -596,6 +596,7 @@ class Check:
     def __init__(self, pid, tier, repo_root, level="other", seed=0):
         self.pid = pid
         self.tier = tier
+        self.decided_groups = set()
         self.level = level
         self.seed = seed
         self.repo_root = repo_root
@@ -662,9 +663,17 @@ class Check:
         """run one independent rule group; an AnalysisError there does not stop the other groups.
         At the end: violations found elsewhere are still reported (exit 1); if there are none,
         the analysis error makes the run exit 2."""
+        covered_by = kw.pop("covered_by", None)
         try:
-            return fn(*args, **kw)
+            r = fn(*args, **kw)
+            self.decided_groups.add(getattr(fn, "__name__", "rule"))
+            return r
         except AnalysisError as e:
+            if covered_by and covered_by in self.decided_groups:
+                # the same obligation was decided by another rule group (model evaluation of the function as it is written
+                # now): the form-specific rule not recognising the new form is not an analysis failure
+                self.note(f"{getattr(fn, '__name__', 'rule')} does not recognise the current form ({str(e)[:160]}); the obligation is decided by {covered_by}")
+                return None
             self.analysis_errors.append(f"{getattr(fn, '__name__', 'rule')}: {e}")
             return None
 
